@@ -44,6 +44,7 @@ ASSUMPTIONS = [
 GRID = 100          # arrival grid, microseconds
 TIE_GUARD = 50      # no two causally unrelated events closer than this
 REF_K = 16
+CHUNK = 1200        # words per Coq case when a real policy vector (4572 words) is compared
 
 HEADER = ("From Coq Require Import ZArith List Bool.\nFrom TV Require Import model.Server.\nImport ListNotations.\n"
           "Definition beq (x y : Z * list Z) := (fst x =? fst y)%Z && zlist_eqb (snd x) (snd y).\n"
@@ -349,6 +350,35 @@ def oracle(arrivals, obs, check_values=True):
     return bad
 
 
+def xf_oracle(sched, obs, tf):
+    """real Transformer under the server: the statement's oracle with the responses compared numerically
+    (tolerance 1e-4) with local evaluation of each request's own position -> (violated clauses, worst difference)"""
+    import numpy as np
+    import torch
+    bad = oracle(sched["arrivals"], obs, check_values=False)
+    pos_of = {i: p for (i, _, p) in sched["arrivals"]}
+    worst, off = 0.0, []
+    with torch.inference_mode():
+        for a in obs["answers"]:
+            out = tf(torch.tensor([pos_of[a["id"]]], dtype=torch.long))
+            lp = torch.softmax(out["moves"], dim=-1)[0].numpy()
+            lv = float(out["values"][0])
+            got = np.array(a["words"], dtype=np.uint32).view(np.float32)
+            gv = float(np.array([a["value_bits"]], dtype=np.uint32).view(np.float32)[0])
+            if got.shape != lp.shape:
+                bad.append(f"request {a['id']}: policy vector of width {got.shape} instead of {lp.shape}")
+                continue
+            d = max(float(np.abs(got - lp).max()), abs(gv - lv))
+            if d == d:
+                worst = max(worst, d)
+            if not d <= 1e-4:
+                off.append((a["id"], d))
+    if off:
+        bad.append("served evaluation differs from local evaluation of the request's own position (same model) by more than 1e-4: "
+                   + ", ".join(f"request {i}: {d:.3g}" for i, d in off[:6]) + (f" ... ({len(off)} requests)" if len(off) > 6 else ""))
+    return bad, worst
+
+
 # --------------------------------------------------------------------------
 # schedule generator
 # --------------------------------------------------------------------------
@@ -584,8 +614,19 @@ def grpc_roundtrips(run, n_hash, n_xf, transformer):
 # --------------------------------------------------------------------------
 # correspondence
 # --------------------------------------------------------------------------
+def _fresh(run, key, family, cap=3):
+    """report a schedule once, and at most `cap` schedules per family"""
+    seen = run.extra.setdefault("reported", {})
+    if key in seen or sum(1 for f in seen.values() if f == family) >= cap:
+        return False
+    seen[key] = family
+    return True
+
+
 def _report(run, cs, sched, obs, term, clauses, source):
     key = f"sched-{sched['kind']}-{sched_key(sched)}"
+    if not _fresh(run, key, "sched"):
+        return
     view = cs.model_view(term) if cs is not None else None
     run.violation(key, {
         "clause": clauses or ["model/implementation disagreement on batch formation, timing or responses; the property's "
@@ -634,7 +675,7 @@ def correspondence(run):
         bad = oracle(sched["arrivals"], obs)
         if bad:
             oracle_hits += 1
-            if oracle_hits <= 3:
+            if True:
                 _report(run, cs, sched, obs, term, bad, "oracle of the property statement on the implementation")
     t_impl = time.time() - t_start
     failing, shard_fail, nshards = cs.run()
@@ -672,22 +713,8 @@ def correspondence(run):
         term = c_case_x(sched, obs)
         csx.add(term, {"sched": sched, "obs": _slim_x(obs)})
         xs.append((sched, obs, term))
-        bad = oracle(sched["arrivals"], obs, check_values=False)
-        pos_of = {i: p for (i, _, p) in sched["arrivals"]}
-        with torch.inference_mode():
-            for a in obs["answers"]:
-                out = tf(torch.tensor([pos_of[a["id"]]], dtype=torch.long))
-                lp = torch.softmax(out["moves"], dim=-1)[0].numpy()
-                lv = float(out["values"][0])
-                got = np.array(a["words"], dtype=np.uint32).view(np.float32)
-                gv = float(np.array([a["value_bits"]], dtype=np.uint32).view(np.float32)[0])
-                if got.shape != lp.shape:
-                    bad.append(f"request {a['id']}: policy vector of width {got.shape} instead of {lp.shape}")
-                    continue
-                d = max(float(np.abs(got - lp).max()), abs(gv - lv))
-                worst = max(worst, d)
-                if not d <= 1e-4:
-                    bad.append(f"request {a['id']}: served evaluation differs from local evaluation of its own position by {d:.3g}")
+        bad, w = xf_oracle(sched, obs, tf)
+        worst = max(worst, w)
         if bad:
             _report_x(run, sched, obs, bad)
     failing_x, shard_fail_x, nshx = csx.run()
@@ -699,20 +726,32 @@ def correspondence(run):
         sched = meta["sched"]
         idx = next(i for i, (s, _, _) in enumerate(xs) if s is sched)
         _, obs, term = xs[idx]
-        run.violation(f"xsched-{sched_key(sched)}", {"clause": ["batch formation / completion order differs from the model"],
-                                                     "schedule": sched, "impl_observation": _slim_x(obs),
-                                                     "model_view": csx.model_view(term)}, found_input=False)
+        if _fresh(run, f"xsched-{sched_key(sched)}", "xsched"):
+            run.violation(f"xsched-{sched_key(sched)}", {"clause": ["batch formation / completion order differs from the model"],
+                                                         "schedule": sched, "impl_observation": _slim_x(obs),
+                                                         "model_view": csx.model_view(term)}, found_input=False)
 
     # ---- GRPCNetwork.evaluate: float32 words -> bytes -> tensor, bit for bit
     recs = grpc_roundtrips(run, 40 if quick else 300, 3 if quick else 12, tf)
     csc = core.Cases(ID, "codec", HEADER, CTYPE_C, CHECK_C, show=SHOW_C, shard=20)
-    # one file per real-Transformer reply (4572 words + 18288 bytes each): parsed in parallel
-    cscx = core.Cases(ID, "codecx", HEADER, CTYPE_C, CHECK_C, show=SHOW_C, shard=1)
+    # replies of the real Transformer (4572 words + 18288 bytes each) are cut into slices of CHUNK words
+    cscx = core.Cases(ID, "codecx", HEADER, CTYPE_C, CHECK_C, show=SHOW_C, shard=2)
     distinct = set()
     for r in recs:
         cw = r["client_words"] if r["client_words"] is not None else []
-        (csc if r["model"] == "hash" else cscx).add(f"({czlist(r['server_words'])}, {czlist(r['bytes'])}, {czlist(cw)}, {cz(r['server_value_bits'])}, {cz(r['client_value_bits'])})",
-                {"rec": {k: (v if not isinstance(v, list) or len(v) <= 64 else v[:64] + ['...']) for k, v in r.items()}})
+        meta = {"rec": {k: (v if not isinstance(v, list) or len(v) <= 64 else v[:64] + ['...']) for k, v in r.items()}}
+        sw, by = r["server_words"], r["bytes"]
+        if len(sw) <= CHUNK:
+            csc.add(f"({czlist(sw)}, {czlist(by)}, {czlist(cw)}, {cz(r['server_value_bits'])}, {cz(r['client_value_bits'])})", meta)
+        elif len(by) == 4 * len(sw) and len(cw) == len(sw):
+            # a long reply is compared slice by slice (encode_words is a flat_map, so this is the same statement)
+            for k in range(0, len(sw), CHUNK):
+                cscx.add(f"({czlist(sw[k:k + CHUNK])}, {czlist(by[4 * k:4 * (k + CHUNK)])}, {czlist(cw[k:k + CHUNK])}, "
+                         f"{cz(r['server_value_bits'])}, {cz(r['client_value_bits'])})", meta)
+        else:
+            # lengths do not even match: the head is enough to show it
+            cscx.add(f"({czlist(sw[:CHUNK])}, {czlist(by[:4 * CHUNK + 4])}, {czlist(cw[:CHUNK + 1])}, "
+                     f"{cz(r['server_value_bits'])}, {cz(r['client_value_bits'])})", meta)
         distinct.add(hashlib.sha256(json.dumps(r["server_words"]).encode()).hexdigest())
         py_bad = []
         if r["encoded"] != r["request_seen_by_stub"] or r["encoded"] != r["row_seen_by_model"]:
@@ -725,7 +764,7 @@ def correspondence(run):
             w, v = py_ref(r["encoded"])
             if r["client_words"] != w or r["client_value_bits"] != v:
                 py_bad.append("client result is not the model's value on the position")
-        if py_bad:
+        if py_bad and _fresh(run, "grpc-" + hashlib.sha256(json.dumps(r["encoded"]).encode()).hexdigest()[:10], "grpc"):
             run.violation("grpc-" + hashlib.sha256(json.dumps(r["encoded"]).encode()).hexdigest()[:10],
                           {"clause": py_bad, "record": {k: (v if not isinstance(v, list) else v[:80]) for k, v in r.items()}})
     failing_c, shard_fail_c, nshc = csc.run()
@@ -740,11 +779,13 @@ def correspondence(run):
               label="codec")
     for meta in failing_c[:2]:
         r = meta["rec"]
-        run.violation("codec-" + hashlib.sha256(json.dumps(r["encoded"]).encode()).hexdigest()[:10],
-                      {"clause": ["the client does not turn the served reply back into the same policy vector / value"], "record": r})
+        if _fresh(run, "codec-" + hashlib.sha256(json.dumps(r["encoded"]).encode()).hexdigest()[:10], "codec"):
+            run.violation("codec-" + hashlib.sha256(json.dumps(r["encoded"]).encode()).hexdigest()[:10],
+                          {"clause": ["the client does not turn the served reply back into the same policy vector / value"], "record": r})
 
 
 def _slim_x(obs):
+    # (responses of the real Transformer are 4572 words each: keep the head only)
     d = _slim(obs)
     for a in d["answers"]:
         a["words"] = a["words"][:4] + ["..."]
@@ -752,6 +793,8 @@ def _slim_x(obs):
 
 
 def _report_x(run, sched, obs, bad):
+    if not _fresh(run, f"xsched-{sched_key(sched)}", "xsched"):
+        return
     run.violation(f"xsched-{sched_key(sched)}", {"clause": bad, "source": "real Transformer under the server vs local evaluation",
                                                  "schedule": sched, "impl_observation": _slim_x(obs)})
 
@@ -779,9 +822,9 @@ def replay(run, rp):
                 "broken": rp.get("broken_obligations")}
     sched = rp["schedule"]
     if str(rp.get("key", "")).startswith("xsched"):
-        tf = make_transformer(run.seed % 1000)
+        tf = make_transformer(int(rp.get("seed", run.seed)) % 1000)
         obs = run_schedule(sched["arrivals"], sched["lats"], model_kind="transformer", transformer=tf)
-        bad = oracle(sched["arrivals"], obs, check_values=False)
+        bad, _ = xf_oracle(sched, obs, tf)
         cs = core.Cases(ID, "replay", HEADER, CTYPE_X, CHECK_X, show=SHOW_X, shard=1)
         term = c_case_x(sched, obs)
     else:
